@@ -12,6 +12,7 @@ stated order.  Property theorems only (helper lemmas live in Proofs/ODE.lean).
 -/
 import Pyiga.Gen.Tableaux
 import Pyiga.Proofs.ODE
+import Mathlib.Tactic.FieldSimp
 
 namespace Pyiga.Props.C12
 open Pyiga.ODE Pyiga.Gen.Tableaux
@@ -449,5 +450,75 @@ example : ∃ o, adaptDriver (fun (x : ℚ) tau _ => .ok (x + tau, x + tau, none
       (fun _ _ _ => 0) (fun _ => 100) ⟨1, 1 / 10 ^ 15, 1 / 5, 5, 1 / 2, 9 / 10⟩ (0 : ℚ) (1 / 2 : ℚ) 1 0 10
       = .ok o ∧ decide (o.times = [0, 1/2, 3] ∧ o.outOfFuel = false ∧ o.tau = 25/2) = true :=
   exists_ok_of_okAnd (by decide +kernel)
+
+/-! ## outside the property: the adaptive loop need not terminate (user parameter `step_factor = 1`)
+
+`adaptive_driver` is relative to the model's fuel because the Python `while t < t_end` loop has no
+lower bound on `tau`.  The following witness is the observation made with the scripted stepper:
+with `step_factor = 1` and an error estimate proportional to the step size, a rejected step
+is retried with `tau' = tau·fac`, `fac = r**(-1/q)` clamped to `[0.2, 5]`, so the new scaled
+error is `r' = r·fac`; for `q > 1` and `r > 1` this is `r**(1-1/q) > 1` again (and `0.2·r > 1`
+when the clamp is active, since then `r > 5^q`): `r` tends to `1` from above, no step is ever
+accepted.  This is **not** a violation of C12 (the default `step_factor` is `0.9` and the
+parameter is the user's); it documents why termination is not claimed. -/
+
+section nontermination
+variable {K : Type} [Field K] [LinearOrder K] [IsStrictOrderedRing K]
+
+/-- the stepper of the witness: the state does not move, the embedded estimate differs by `ρ·tau`. -/
+def stuckStep (ρ : K) : K → K → Option K → Except StepErr (K × K × Option K) :=
+  fun x tau _ => .ok (x, x + ρ * tau, none)
+
+theorem stuck_loop (ρ : K) (powf : K → K) (c : Ctl K) (tEnd t0 : K)
+    (hone : c.one = 1) (hsf : c.stepFactor = 1) (ht : t0 < tEnd)
+    (hp : ∀ r, 1 < r → 1 < r * pmin c.hi (pmax c.lo (powf r))) :
+    ∀ (fuel : ℕ) (tau x : K) (Fx : Option K) (log : List (Event K)), 1 < ρ * tau →
+      ∃ o, adaptLoop (stuckStep ρ) (fun _ xn xh => xh - xn) powf c tEnd fuel t0 tau x Fx [t0] [x] log = .ok o ∧
+        o.outOfFuel = true ∧ o.times = [t0] ∧ o.sols = [x] := by
+  intro fuel
+  induction fuel with
+  | zero =>
+    intro tau x Fx log _
+    exact ⟨_, rfl, by simp [ht], rfl, rfl⟩
+  | succ fuel ih =>
+    intro tau x Fx log hr
+    have hr0 : (x + ρ * tau - x) = ρ * tau := by ring
+    have hne : ¬ (ρ * tau = 0) := by intro h; rw [h] at hr; linarith
+    have hnle : ¬ (ρ * tau ≤ 1) := not_le.mpr hr
+    have hnext : 1 < ρ * (tau * pmin c.hi (pmax c.lo (powf (ρ * tau)))) := by
+      have := hp (ρ * tau) hr
+      calc (1 : K) < ρ * tau * pmin c.hi (pmax c.lo (powf (ρ * tau))) := this
+        _ = ρ * (tau * pmin c.hi (pmax c.lo (powf (ρ * tau)))) := by ring
+    obtain ⟨o, ho, h1, h2, h3⟩ := ih (tau * pmin c.hi (pmax c.lo (powf (ρ * tau)))) x Fx
+      (log ++ [.stepped (ρ * tau) false (pmin c.hi (pmax c.lo (powf (ρ * tau))))]) hnext
+    refine ⟨o, ?_, h1, h2, h3⟩
+    simp only [adaptLoop, stuckStep, ht, if_true, hr0, beq_iff_eq, hne, if_false, hone, hnle, hsf, one_mul]
+    exact ho
+
+/-- **Non-termination witness (outside the property).**  With `step_factor = 1`, any `powf`
+with `r > 1 → r·clamp(powf r) > 1` (true for `r ↦ r^(-1/q)`, `q > 1`, with the clamp `[0.2,5]`)
+and an error estimate `ρ·tau` that starts above `1`, the adaptive driver never accepts a step:
+for every amount of fuel it returns only the initial state and reports `outOfFuel`. -/
+theorem adaptive_driver_nontermination_witness (ρ : K) (powf : K → K) (c : Ctl K) (tEnd t0 tau0 x0 : K)
+    (hone : c.one = 1) (hsf : c.stepFactor = 1) (ht : t0 < tEnd)
+    (hp : ∀ r, 1 < r → 1 < r * pmin c.hi (pmax c.lo (powf r))) (h0 : 1 < ρ * tau0) (fuel : ℕ) :
+    ∃ o, adaptDriver (stuckStep ρ) (fun _ xn xh => xh - xn) powf c x0 tau0 tEnd t0 fuel = .ok o ∧
+      o.outOfFuel = true ∧ o.times = [t0] ∧ o.sols = [x0] :=
+  stuck_loop ρ powf c tEnd t0 hone hsf ht hp fuel tau0 x0 none [] h0
+
+/-- the hypotheses are satisfiable over `ℚ`: `powf r = (1 + r)/(2r)` is a rational stand-in for
+`r^(-1/2)` with `r·powf r = (1+r)/2 > 1` for `r > 1`, and it stays inside the clamp `[1/5, 5]`. -/
+example : ∀ r : ℚ, 1 < r → 1 < r * pmin 5 (pmax (1 / 5) ((1 + r) / (2 * r))) := by
+  intro r hr
+  have hpos : (0 : ℚ) < 2 * r := by linarith
+  have h1 : (1 : ℚ) / 5 < (1 + r) / (2 * r) := by rw [div_lt_div_iff₀ (by norm_num) hpos]; linarith
+  have h2 : (1 + r) / (2 * r) < 5 := by rw [div_lt_iff₀ hpos]; linarith
+  have e1 : pmax (1 / 5 : ℚ) ((1 + r) / (2 * r)) = (1 + r) / (2 * r) := by unfold pmax; rw [if_pos h1]
+  have e2 : pmin (5 : ℚ) ((1 + r) / (2 * r)) = (1 + r) / (2 * r) := by unfold pmin; rw [if_pos h2]
+  rw [e1, e2]
+  have : r * ((1 + r) / (2 * r)) = (1 + r) / 2 := by field_simp
+  rw [this]; linarith
+
+end nontermination
 
 end Pyiga.Props.C12
